@@ -201,7 +201,7 @@ func (e *Exec) appendOp(st *State, args []Value, cc *ssa.CallCommon, pos token.P
 		return e.merge(c.BVSlt(i, sLen), oldRead(i), read(c.BVSub(i, sLen)))
 	}}
 	capT := c.Fresh("appcap", smt.BV(64))
-	e.Axioms = append(e.Axioms, c.BVSle(capT, c.BVC(1<<49, 64)))
+	e.Axioms = append(e.Axioms, c.BVSle(capT, c.BVC(1<<40, 64)))
 	e.assume(st, c.BVSle(newLen, capT))
 	// the result is s itself when nothing is appended
 	same := c.Eq(n, z)
@@ -306,7 +306,7 @@ func lePut(w int) nativeFn {
 // errorKinds lists the error types whose presence in an error chain matters
 // (errors.As targets); filled from the spec database.
 func (e *Exec) errHas(ident *smt.Term, kind int) *smt.Term {
-	return e.C.App("err_has", smt.Bool, ident, e.C.IntC(int64(kind)))
+	return e.C.App("err_has", smt.Bool, ident, e.C.BVC(uint64(int64(kind)), 64))
 }
 
 // newError returns a fresh non-nil error; wrapped (may be nil) is the error
@@ -325,8 +325,8 @@ func (e *Exec) newError(st *State, what string, wrapped *IfaceV) Value {
 func (e *Exec) newErrorK(st *State, kindOf func(k int) *smt.Term) Value {
 	c := e.C
 	t := c.Fresh("err", sortIface)
-	tag := c.App("if_tag", smt.Int, t)
-	e.Axioms = append(e.Axioms, c.Eq(tag, c.IntC(int64(e.typeID(errorStringType)))))
+	tag := c.App("if_tag", refSort, t)
+	e.Axioms = append(e.Axioms, c.Eq(tag, c.BVC(uint64(e.typeID(errorStringType)), 64)))
 	iv := &IfaceV{Typ: errorType, Alts: []IfaceAlt{{Cond: c.True(), Tag: tag, Opaque: t}}}
 	id := e.ifaceIdent(iv)
 	for _, k := range e.errKinds() {
@@ -359,7 +359,7 @@ func (e *Exec) errChainHas(v *IfaceV, kind int) *smt.Term {
 		case al.Typ != nil:
 			h = c.BoolC(e.typeID(al.Typ) == kind)
 		case al.Opaque != nil:
-			h = c.Or(c.Eq(al.Tag, c.IntC(int64(kind))), e.errHas(c.App("if_ident", smt.Int, al.Opaque), kind))
+			h = c.Or(c.Eq(al.Tag, c.BVC(uint64(int64(kind)), 64)), e.errHas(c.App("if_ident", refSort, al.Opaque), kind))
 		default:
 			h = c.False()
 		}
